@@ -298,7 +298,19 @@ type rop struct {
 	// the <data/> element (codes: carrierChild); shaped=false: the packet is the only child
 	shaped        bool
 	before, after []int
+	// kind 'd' / 'x': the stanza comes from somebody who is not the other end of the stream (index
+	// into otherSenders, 0 = the stream's peer): whatever sid it names, it is not a packet of this stream
+	sender int
 }
+
+// otherSenders: from attributes that are NOT the peer of the stream under test: another resource
+// of the peer's account, its bare address, a third party, the peer's server.
+var otherSenders = []string{peerJID, "peer@example.net/other", "peer@example.net", "mallory@example.org/m", "example.net"}
+
+func (o rop) from() string { return otherSenders[o.sender%len(otherSenders)] }
+
+// forStream: the packet names the stream: its sid AND its sender are the stream's.
+func (o rop) forStream() bool { return o.known && o.sender == 0 }
 
 // carrierChild: a top-level child of a carrier <message/> that is NOT the data packet of the stream
 // (the same codes as in lean/XmppModel/Model/IbbCarrier.lean).
@@ -482,9 +494,11 @@ func (o rop) tok() string {
 			shape = ":" + shapeTok(o.before, o.after)
 		}
 		if _, ok := canonicalSeq(o.seqText()); !ok {
-			return fmt.Sprintf("d:%s:x%s:%s%s", common.B(o.known), common.HexS(o.seqText()), o.payTok(), shape)
+			return fmt.Sprintf("d:%s:x%s:%s%s", common.B(o.forStream()), common.HexS(o.seqText()), o.payTok(), shape)
 		}
-		return fmt.Sprintf("d:%s:%s:%s%s", common.B(o.known), o.seqText(), o.payTok(), shape)
+		return fmt.Sprintf("d:%s:%s:%s%s", common.B(o.forStream()), o.seqText(), o.payTok(), shape)
+	case 'x':
+		return "x"
 	case 'r':
 		return fmt.Sprintf("r:%d", o.n)
 	case 'b':
@@ -548,9 +562,9 @@ func runRecv(r *common.Run, maxbuf0 int, carrier string, ops []rop, class string
 			if o.shaped {
 				bf, af = carrierChildren(o.before, sid), carrierChildren(o.after, sid)
 			}
-			p.feed(fmt.Sprintf(`<message xmlns="jabber:client" id="%s" from="%s" to="me@example.net/h">%s<data xmlns="http://jabber.org/protocol/ibb" seq="%s" sid="%s">%s</data>%s</message>`, id, peerJID, bf, xmlAttr(o.seqText()), sid, o.body(), af))
+			p.feed(fmt.Sprintf(`<message xmlns="jabber:client" id="%s" from="%s" to="me@example.net/h">%s<data xmlns="http://jabber.org/protocol/ibb" seq="%s" sid="%s">%s</data>%s</message>`, id, o.from(), bf, xmlAttr(o.seqText()), sid, o.body(), af))
 		} else {
-			p.feed(fmt.Sprintf(`<iq xmlns="jabber:client" type="set" id="%s" from="%s" to="me@example.net/h"><data xmlns="http://jabber.org/protocol/ibb" seq="%s" sid="%s">%s</data></iq>`, id, peerJID, xmlAttr(o.seqText()), sid, o.body()))
+			p.feed(fmt.Sprintf(`<iq xmlns="jabber:client" type="set" id="%s" from="%s" to="me@example.net/h"><data xmlns="http://jabber.org/protocol/ibb" seq="%s" sid="%s">%s</data></iq>`, id, o.from(), xmlAttr(o.seqText()), sid, o.body()))
 		}
 		return id
 	}
@@ -572,12 +586,14 @@ func runRecv(r *common.Run, maxbuf0 int, carrier string, ops []rop, class string
 		}
 		obs = append(obs, code)
 		dec, derr := base64.StdEncoding.DecodeString(o.payload)
-		valid := o.known && !closed && derr == nil && (maxbuf == 0 || unread+len(dec) <= maxbuf)
+		valid := o.forStream() && !closed && derr == nil && (maxbuf == 0 || unread+len(dec) <= maxbuf)
 		// the number the packet carries: the seq attribute read as a decimal numeral of ANY size
 		// (not reduced modulo anything); an attribute that is no numeral carries no number
 		wireNum, isNum := wireNumber(o.seqText())
 		inSeq := isNum && wireNum.Cmp(big.NewInt(int64(expSeq))) == 0
 		switch {
+		case code == "ack" && o.known && o.sender != 0:
+			r.Fail("refuse", "packet-from-somebody-else-accepted", line(), fmt.Sprintf("a data packet that names the session id of the stream but comes from %q (the stream was opened by, and is with, %q) was acknowledged: anybody who can reach the session and knows or guesses the session id can put bytes into the stream", o.from(), peerJID))
 		case code == "ack" && !inSeq:
 			key := "out-of-sequence-packet-accepted"
 			if !isNum {
@@ -628,6 +644,26 @@ func runRecv(r *common.Run, maxbuf0 int, carrier string, ops []rop, class string
 				continue
 			}
 			judge(o, id, "")
+		case 'x':
+			// a <close/> that names the session id but comes from somebody else: refused, nothing happens
+			nd++
+			id := fmt.Sprintf("x%d", nd)
+			p.feed(fmt.Sprintf(`<iq xmlns="jabber:client" type="set" id="%s" from="%s" to="me@example.net/h"><close xmlns="http://jabber.org/protocol/ibb" sid="S"/></iq>`, id, o.from()))
+			toks = append(toks, "x")
+			if !p.sync() {
+				fail("serve loop does not answer after a foreign close")
+				continue
+			}
+			code, ok := replyCode[p.replies[id]]
+			if !ok {
+				code = "other:" + p.replies[id]
+			}
+			obs = append(obs, code)
+			if code == "ack" && !closed {
+				closed = true // what the code did, so that the rest of the history is judged consistently
+				packOps = append(packOps, "C")
+				r.Fail("refuse", "close-from-somebody-else-accepted", line(), fmt.Sprintf("a <close/> that names the session id of the stream but comes from %q (the stream is with %q) was answered with a result and closed the stream", o.from(), peerJID))
+			}
 		case 'b':
 			// the limit is the REQUESTED one, raised only to the negotiated block size (4 here)
 			conn.SetReadBuffer(o.n)
